@@ -88,13 +88,13 @@ var confinedTable = []confinedRow{
 	{"pkg/twcc.chunk", nil, "pkg/twcc.(*SenderInterceptor).loop", "part of feedback"},
 	{"pkg/rfc8888.Recorder", nil, "pkg/rfc8888.(*SenderInterceptor).loop", "the recorder is only touched by the interceptor's loop goroutine"},
 	{"pkg/rfc8888.streamLog", nil, "pkg/rfc8888.(*SenderInterceptor).loop", "part of the recorder"},
-	{"pkg/gcc.rateController", []string{"init", "delayStats", "lastState"}, "pkg/gcc.newDelayController$2", "only the arrival-group goroutine runs onDelayStats"},
-	{"pkg/gcc.overuseDetector", nil, "pkg/gcc.newDelayController$2", "arrival-group goroutine"},
-	{"pkg/gcc.slopeEstimator", nil, "pkg/gcc.newDelayController$2", "arrival-group goroutine"},
-	{"pkg/gcc.kalman", nil, "pkg/gcc.newDelayController$2", "arrival-group goroutine"},
-	{"pkg/gcc.adaptiveThreshold", nil, "pkg/gcc.newDelayController$2", "arrival-group goroutine"},
-	{"pkg/gcc.arrivalGroupAccumulator", nil, "pkg/gcc.newDelayController$2", "arrival-group goroutine"},
-	{"pkg/gcc.rateCalculator", nil, "pkg/gcc.newDelayController$3", "rate-calculator goroutine"},
+	{"pkg/gcc.rateController", []string{"init", "delayStats", "lastState"}, "go@pkg/gcc.newDelayController→pkg/gcc.(*arrivalGroupAccumulator).run", "only the arrival-group goroutine runs onDelayStats"},
+	{"pkg/gcc.overuseDetector", nil, "go@pkg/gcc.newDelayController→pkg/gcc.(*arrivalGroupAccumulator).run", "arrival-group goroutine"},
+	{"pkg/gcc.slopeEstimator", nil, "go@pkg/gcc.newDelayController→pkg/gcc.(*arrivalGroupAccumulator).run", "arrival-group goroutine"},
+	{"pkg/gcc.kalman", nil, "go@pkg/gcc.newDelayController→pkg/gcc.(*arrivalGroupAccumulator).run", "arrival-group goroutine"},
+	{"pkg/gcc.adaptiveThreshold", nil, "go@pkg/gcc.newDelayController→pkg/gcc.(*arrivalGroupAccumulator).run", "arrival-group goroutine"},
+	{"pkg/gcc.arrivalGroupAccumulator", nil, "go@pkg/gcc.newDelayController→pkg/gcc.(*arrivalGroupAccumulator).run", "arrival-group goroutine"},
+	{"pkg/gcc.rateCalculator", nil, "go@pkg/gcc.newDelayController→pkg/gcc.(*rateCalculator).run", "rate-calculator goroutine"},
 	{"fixtures/fx.GoodC2confined", nil, "fixtures/fx.(*GoodC2owner).loop", "fixture"},
 	{"fixtures/fx.BadC2confined", nil, "fixtures/fx.(*BadC2owner).loop", "fixture"},
 }
@@ -764,7 +764,7 @@ func runC2(p *Prog, o *obls, la *lockAnalysis) {
 		if p.Fixture != strings.HasPrefix(row.typ, "fixtures/") {
 			continue
 		}
-		owner := p.FuncByKey(row.owner)
+		owner := resolveOwner(p, row.owner)
 		if owner == nil {
 			o.undecided("C2", row.typ, "-", "owner goroutine entry "+row.owner+" not found (checker needs update)")
 			continue
@@ -816,6 +816,44 @@ func runC2(p *Prog, o *obls, la *lockAnalysis) {
 			o.ok("C2", row.typ, p.Pos(owner.Pos()), fmt.Sprintf("%d access site(s), all in functions reachable only from %s (%s)", n, row.owner, row.reason))
 		}
 	}
+}
+
+// resolveOwner finds a goroutine entry: either a function key, or "go@F→G" = the function started by a go statement
+// in F that is G or a literal that calls G (robust against renumbering of literals).
+func resolveOwner(p *Prog, spec string) *ssa.Function {
+	if !strings.HasPrefix(spec, "go@") {
+		return p.FuncByKey(spec)
+	}
+	parts := strings.SplitN(spec[3:], "→", 2)
+	if len(parts) != 2 {
+		return nil
+	}
+	f := p.FuncByKey(parts[0])
+	if f == nil {
+		return nil
+	}
+	var found *ssa.Function
+	for _, ff := range allNested(f) {
+		instrsOf(ff, func(in ssa.Instruction) {
+			g, ok := in.(*ssa.Go)
+			if !ok {
+				return
+			}
+			for _, c := range p.Callees(g) {
+				if funcKey(c) == parts[1] {
+					found = c
+				}
+				instrsOf(c, func(in2 ssa.Instruction) {
+					if call, ok := in2.(ssa.CallInstruction); ok {
+						if sc := call.Common().StaticCallee(); sc != nil && funcKey(sc) == parts[1] && c.Parent() != nil {
+							found = c
+						}
+					}
+				})
+			}
+		})
+	}
+	return found
 }
 
 // reachableAvoiding computes the functions reachable from the program's entry points without passing through `avoid`;
@@ -1002,11 +1040,76 @@ func runC4(p *Prog, o *obls, la *lockAnalysis, wanted map[string]bool) {
 			writes[fk] = append(writes[fk], site{p.instrPos(st), funcKey(fn), la.info[fn].before[st]})
 		})
 	}
+	// a field the table does not list but whose every shared access (read or write) holds one and the same mutex of
+	// its own struct — exclusively at the writes — is consistently guarded: inferred, listed as a note, not a violation
+	inferred := map[string]string{}
+	{
+		type accLS struct {
+			ls    lockset
+			write bool
+		}
+		accs := map[string][]accLS{}
+		for _, fn := range p.Funcs {
+			if isOptionClosure(fn) {
+				continue
+			}
+			instrsOf(fn, func(in ssa.Instruction) {
+				fa, ok := in.(*ssa.FieldAddr)
+				if !ok {
+					return
+				}
+				fk := fieldKeyAddr(fa)
+				if _, isW := writes[fk]; !isW || !sharedBase(p, fn, fa.X) {
+					return
+				}
+				for _, r := range *fa.Referrers() {
+					switch x := r.(type) {
+					case *ssa.Store:
+						if x.Addr == ssa.Value(fa) {
+							accs[fk] = append(accs[fk], accLS{la.info[fn].before[x], true})
+						}
+					case *ssa.UnOp:
+						accs[fk] = append(accs[fk], accLS{la.info[fn].before[x], false})
+					default:
+						accs[fk] = append(accs[fk], accLS{la.info[fn].before[r], true})
+					}
+				}
+			})
+		}
+		for fk, as := range accs {
+			owner := fk[:strings.LastIndex(fk, ".")]
+			var cand map[string]bool
+			for _, a := range as {
+				cur := map[string]bool{}
+				for l, m := range a.ls {
+					if strings.HasPrefix(l, owner+".") && (m == 2 || !a.write) {
+						cur[l] = true
+					}
+				}
+				if cand == nil {
+					cand = cur
+				} else {
+					for l := range cand {
+						if !cur[l] {
+							delete(cand, l)
+						}
+					}
+				}
+			}
+			if len(cand) > 0 {
+				inferred[fk] = sortedKeys(cand)[0]
+			}
+		}
+	}
 	badByType := map[string][]string{}
 	for _, fk := range sortedKeys(writes) {
 		ss := writes[fk]
 		if why, ok := setupTimeSetters[fk]; ok {
 			o.note("C4", fk, ss[0].pos, "accepted: "+why)
+			continue
+		}
+		if l, ok := inferred[fk]; ok {
+			o.note("C4", fk, ss[0].pos, "not in the guard table, but every shared access holds "+l+" (exclusively at writes): consistently guarded (inferred)")
 			continue
 		}
 		var w []string
